@@ -137,3 +137,42 @@ Example ex_unsorted : IsSorted 3 (hash_of [(3, 1); (3, 2); (3, 1)]) (item_of [(3
 Proof. vm_compute. reflexivity. Qed.
 Example ex_check : check_sort_output [(7, 4); (3, 1); (3, 2); (3, 1)] [(3, 1); (3, 1); (3, 2); (7, 4)] = true.
 Proof. vm_compute. reflexivity. Qed.
+
+(* ------------------------------------------------------------------------------------------------
+   the SORT half (model SorterSort.v with sw := swap) *)
+From C17 Require Import SorterSort Sort_Proofs.
+
+Definition HashSort (eqf : Z -> Z -> bool) : arr -> outcome arr := RadixSortG swap eqf 8 true 64.
+Lemma swap_is_swap : forall l i j, swap l i j = swap l i j. Proof. reflexivity. Qed.
+
+Theorem Group_makes_equal_contiguous eqf l q cnt : equivalence eqf -> 0 <= q -> 0 <= cnt -> q + cnt <= alen l ->
+  exists l', pvGroup swap eqf l q cnt = Ok l' /\ relR q (q + cnt) l l' /\ contigL eqf l' q (q + cnt).
+Proof. intros (R & S & T). apply (pvGroup_spec swap swap_is_swap eqf R S T). Qed.
+
+Theorem SelectionSort_perm_sorted eqf grp l p cnt : equivalence eqf ->
+  (forall l q c, 0 <= q -> 0 <= c -> q + c <= alen l ->
+     exists l', grp l q c = Ok l' /\ relR q (q + c) l l' /\ contigL eqf l' q (q + c)) ->
+  0 <= p -> 0 < cnt -> p + cnt <= alen l ->
+  exists l', pvSelectionSort swap grp l p cnt = Ok l' /\ relR p (p + cnt) l l' /\
+    sortedR l' p (p + cnt) /\ groupedR eqf l' p (p + cnt).
+Proof. intros (R & S & T) Hg Hp Hc Hl. apply (pvSelectionSort_spec swap swap_is_swap eqf); assumption. Qed.
+
+Theorem RadixSort_perm_partial eqf R g W l l' :
+  RadixSortG swap eqf R g W l = Ok l' -> Permutation l l' /\ alen l' = alen l.
+Proof. apply (RadixSortG_perm_partial swap swap_is_swap eqf). Qed.
+
+Theorem HashSort_small_output_satisfies_is_sorted eqf l : equivalence eqf -> alen l <= 32 ->
+  exists l', HashSort eqf l = Ok l' /\ Permutation l l' /\
+    IsSorted (alen l') (code l') (itm l') eqf = Ok true.
+Proof.
+  intros He Hn. pose proof He as (R & S & T).
+  destruct (HashSort_small_spec swap swap_is_swap eqf R S T l Hn) as (l' & E & P & L & Sd & G).
+  exists l'. split; [exact E|]. split; [exact P|].
+  destruct (IsSorted_iff (alen l') (code l') (itm l') eqf ltac:(unfold alen; lia) He) as (b & Eb & Hb).
+  rewrite Eb. f_equal. apply Hb. split.
+  - intros i j Hi Hij Hj. apply Sd; lia.
+  - intros a m c Ha Ham Hmc Hc Hh Eac. apply (G a m c); auto.
+Qed.
+
+Example ex_hashsort : HashSort Z.eqb [(7, 4); (3, 1); (3, 2); (3, 1); (0, 9)] = Ok [(0, 9); (3, 1); (3, 1); (3, 2); (7, 4)].
+Proof. vm_compute. reflexivity. Qed.
